@@ -20,14 +20,15 @@ EXHAUSTIVE_NOTE = G.EXHAUSTIVE_NOTE
 ASSUMPTIONS = G.ASSUMPTIONS
 TRUSTED = G.TRUSTED
 ALLOWED_AXIOMS = []
-LEVEL_TEXT = ('proof (full on the model): outcome_trichotomy, no_lib_exc, done_once, outcome_final, failure_not_cached, '
+LEVEL_TEXT = ('proof (full on the model; 18 theorems): outcome_trichotomy, no_lib_exc, done_once, outcome_final, failure_not_cached, '
               'failed_invocation_leaves_cache, cancel_isolated, cancelled_waiter_touches_nothing for all event lists '
               'accepted by the model Cache.step, and ok_C06_sound: every accepted trace satisfies the trace monitor; '
               'model tied to the code by differential correspondence')
 LEVEL_NOTE = ('All ten theorems closed under the global context (CacheOut.v, invariants Out / Stat / Sim over Cache.step). '
               'The clause "never delays any other caller beyond a recomputation" is a timing statement and is covered by '
-              'C05 (prompt / rescue theorems and the C05 monitor), not restated here.  The converse of monitor soundness '
-              '(ok_C06 tr = true implies the Prop about tr) is not proved; the monitor is evaluated on every observed trace.')
+              'C05 (prompt / rescue theorems and the C05 monitor), not restated here.  Converse theorems ok_C06_implies_no_lib_exc / _once / _ret / '
+              '_own_exception / _own_cancel (CacheMonSpec.v) read the property off an accepted trace alone; '
+              'keyerror_refuted_without_fix1 and foreign_cancel_refuted_without_fix2 (CacheUnfixed.v) document defects F1 and F2/F2b.')
 TECHNIQUE = G.TECHNIQUE
 
 corpus = G.corpus
